@@ -59,9 +59,25 @@ func c18Open(path string) (*storage.JSONFileStorage, error) {
 	return s, nil
 }
 
+// c18Tokens are the pieces composed strings are made of: everything that means
+// something to a JSON encoder, a JSON decoder, an HTML-safe escaper, a printf or
+// a text post-processor of the written file - as literal text inside a value.
+var c18Tokens = []string{
+	"\\", "\"", "/", "u0026", "u003c", "u003e", "u2028", "u0000", "ud83d", "\\u0026", "\\u003c", "\\u003e", "\\\\u0026", "\\n", "\\\"",
+	"<", ">", "&", "&amp;", "%", "%s", "%v", "%!", "%%", "{", "}", "[", "]", ",", ":", "null", "true", "0", "-1e9", " ", "\t", "\n", "\r", "\b", "\f",
+	"\x7f", "\u2028", "\u2029", "\ufeff", "\ufffd", "é", "日", "😀", "a", "Z", "$", "`", "'", "#", "\\x", "\\/",
+}
+
 func c18Str(c *core.Case, label string) string {
-	if c.Chance(label+".rand", 1, 4) {
+	switch c.Weighted(label+".kind", 2, 3, 3) {
+	case 0:
 		return fmt.Sprintf("s-%x", c.Uint64(label+".v"))
+	case 1:
+		var sb strings.Builder
+		for i, n := 0, c.Int(label+".tokens", 1, 8); i < n; i++ {
+			sb.WriteString(c18Tokens[c.Pick(label+".token", len(c18Tokens))])
+		}
+		return sb.String()
 	}
 	return c18Strings[c.Pick(label, len(c18Strings))]
 }
